@@ -152,8 +152,15 @@ func c04Alterations(base vh.Call, owner, other *vh.Ident) []c04Alt {
 	return out
 }
 
-func c04Unit(endpoint string) vh.Unit {
+func c04Unit(endpoint string) vh.Unit { return c04UnitShape(endpoint, "") }
+
+// shape "peers-only" (vipnode_update): a request in the current format that carries only the
+// deprecated peers list - what it signs must still differ from every other request's bytes.
+func c04UnitShape(endpoint, shape string) vh.Unit {
 	name := "alterations/" + endpoint
+	if shape != "" {
+		name += "/" + shape
+	}
 	cast := vh.StdCast()
 	return vh.Unit{Name: name, Run: func(u *vh.U) {
 		for si, prefix := range c04States {
@@ -177,7 +184,11 @@ func c04Unit(endpoint string) vh.Unit {
 				return pw, vh.CtxWith(pw.Host("conn-" + owner.Name).Service())
 			}
 			nonce := vsched.Base().UnixNano() + int64(3600e9) + 5000
-			base := vh.NewCall(endpoint, owner, nonce, vh.DefaultParam(endpoint, target))
+			param := vh.DefaultParam(endpoint, target)
+			if shape == "peers-only" {
+				param = pool.UpdateRequest{Peers: []string{target}, BlockNumber: 7}
+			}
+			base := vh.NewCall(endpoint, owner, nonce, param)
 			// unaltered: the verification step must accept
 			{
 				pw, ctx := build()
@@ -610,7 +621,7 @@ func init() {
 			for _, e := range vh.SignedEndpoints {
 				us = append(us, c04Unit(e))
 			}
-			us = append(us, c04Legacy(), c04ValidShapes(), c04WalletEncodings(), c04RPCSurface())
+			us = append(us, c04Legacy(), c04ValidShapes(), c04WalletEncodings(), c04RPCSurface(), c04UnitShape("vipnode_update", "peers-only"))
 			b := 2
 			if tier == "thorough" {
 				b = 3
